@@ -244,7 +244,7 @@ func runC10(c *Ctx) {
 		}
 		text := asm.Perturb(lines, set, d, r)
 		var texts []string
-		if idx%4 == 0 {
+		if r.Chance(1, 4) {
 			// truncation at EVERY byte of this file
 			for k := 0; k <= len(text); k++ {
 				texts = append(texts, text[:k])
